@@ -128,3 +128,45 @@ Example sw_l1_hyp_satisfiable : wdirs <> [] /\ (forall u, In u wdirs -> Qabs (fs
 Proof. split. discriminate. split.
   - intros u [<-|[<-|[]]]; simpl; split; vm_compute; discriminate.
   - split; apply Permutation_refl. Qed.
+
+(* ---- sw <= 2 * W1, FULL version against the real-valued Wasserstein specification ----
+   Spec/WassersteinS.v: is_wasserstein S T v says v is the minimum over all partial matchings of the sum of
+   Euclidean costs of matched pairs plus (d - b)/sqrt 2 for every unmatched point.  The diagrams are the
+   rational point lists of the model mapped into R x R (rp); directions in the closed unit disc; points on or
+   above the diagonal (the spec charges the signed (d - b)/sqrt 2, the code |d - b|/sqrt 2).
+   Proofs/SlicedW1R.v instantiates sw_le_2W1_partial, for every n, with rational bounds within 1/n of the true
+   distances at the optimal matching and lets n go to infinity. *)
+From Coq Require Import Reals Qreals.
+From Persim Require Import Spec.PartialMatching Spec.WassersteinS Spec.LandscapeRealS Proofs.MetricLawsW Proofs.SlicedW1R.
+
+Theorem sw_le_twice_wasserstein : forall (dirs : list dir) (P1 P2 : list pt) (v : R),
+  dirs <> [] -> (forall u, In u dirs -> (fst u * fst u + snd u * snd u <= 1)%Q) ->
+  (forall p, In p P1 -> (fst p <= snd p)%Q) -> (forall p, In p P2 -> (fst p <= snd p)%Q) ->
+  is_wasserstein (map rp P1) (map rp P2) v -> (Q2R (sw dirs P1 P2) <= 2 * v)%R.
+Proof. exact sw_le_twice_wasserstein_R. Qed.
+Print Assumptions sw_le_twice_wasserstein.
+
+(* the same bound against the cost of EVERY valid partial matching (not only an optimal one) *)
+Theorem sw_le_twice_any_matching_cost : forall (dirs : list dir) (P1 P2 : list pt) (m : pmatching),
+  dirs <> [] -> (forall u, In u dirs -> (fst u * fst u + snd u * snd u <= 1)%Q) ->
+  (forall p, In p P1 -> (fst p <= snd p)%Q) -> (forall p, In p P2 -> (fst p <= snd p)%Q) ->
+  valid_for (map rp P1) (map rp P2) m -> (Q2R (sw dirs P1 P2) <= 2 * wcost (map rp P1) (map rp P2) m)%R.
+Proof. exact sw_le_twice_wcost. Qed.
+Print Assumptions sw_le_twice_any_matching_cost.
+
+Example sw_W1_hyp_satisfiable : wdirs <> [] /\
+  (forall u, In u wdirs -> (fst u * fst u + snd u * snd u <= 1)%Q) /\
+  (forall p, In p wA -> (fst p <= snd p)%Q) /\ (forall p, In p wB -> (fst p <= snd p)%Q) /\
+  (exists v, is_wasserstein (map rp wA) (map rp wB) v) /\
+  valid_for (map rp wA) (map rp wB) [(0%nat, 0%nat)] /\ (0 < sw wdirs wA wB)%Q.
+Proof. split. discriminate. split.
+  - intros u [<-|[<-|[]]]; vm_compute; discriminate.
+  - split. intros p [<-|[<-|[]]]; vm_compute; discriminate.
+    split. intros p [<-|[]]; vm_compute; discriminate.
+    split. apply W_exists.
+    split.
+    { unfold valid_for, valid_pm. simpl. split; [|split].
+      - constructor. intros []. constructor.
+      - constructor. intros []. constructor.
+      - intros q [<-|[]]. simpl. split; repeat constructor. }
+    vm_compute. reflexivity. Qed.
